@@ -45,6 +45,18 @@ def h(x: int) -> int: ...
 def h(x: str) -> str: ...
 z: Literal[Color.RED, Color.BLUE]
 """,
+    """
+from typing import Callable, Dict, List, Optional, Tuple, Union
+class Node: ...
+class Leaf(Node): ...
+a: Optional[List[Node]]
+b: Union[Tuple[Node, int], Dict[str, Leaf], None]
+c: Callable[[Node], Optional[Leaf]]
+def walk(n: Optional[List[Node]], f: Callable[[Leaf], Node] = ...) -> Union[List[Leaf], Tuple[Node, ...]]: ...
+class Tree:
+  kids: Optional[List['Tree']]
+  def find(self, k: Union[Node, List[Node]]) -> Optional[Dict[str, List[Leaf]]]: ...
+""",
 ]
 
 
